@@ -31,10 +31,11 @@ theorem applier_selStop {cfg : Cfg} {s s' : State} {t : Tid}
 /-! ### monotone fields -/
 
 def StepMono (s s' : State) : Prop :=
-  (∀ id ∈ s.closedMarkers, id ∈ s'.closedMarkers) ∧ (s.closed = true → s'.closed = true)
+  (∀ id ∈ s.closedMarkers, id ∈ s'.closedMarkers) ∧ (s.closed = true → s'.closed = true) ∧
+  (s'.closed = true → s.closed = true ∨ ∃ t, s.cl t = .clsFinish)
 
 theorem StepMono.of_eq {s s' : State} (h1 : s'.closedMarkers = s.closedMarkers) (h2 : s'.closed = s.closed) :
-    StepMono s s' := ⟨fun id h => by rw [h1]; exact h, fun h => by rw [h2]; exact h⟩
+    StepMono s s' := ⟨fun id h => by rw [h1]; exact h, fun h => by rw [h2]; exact h, fun h => Or.inl (by rw [← h2]; exact h)⟩
 
 theorem stepMono_clientStep {cfg : Cfg} {s s' : State} {t : Tid} {ch : Choice}
     (hs : clientStep cfg s t ch = some s') : StepMono s s' := by
@@ -46,14 +47,15 @@ theorem stepMono_clientStep {cfg : Cfg} {s s' : State} {t : Tid} {ch : Choice}
     intro closing k _ hr
     obtain ⟨_, _, _, _, _, _, h4, _, _, _, h8, _, _⟩ := stClrShard_q hr
     exact .of_eq h4 h8
-  case clsFinish => intros; exact ⟨fun id h => by simpa using h, fun _ => rfl⟩
+  case clsFinish => intro hpc _; exact ⟨fun id h => by simpa using h, fun _ => rfl, fun _ => Or.inr ⟨t, hpc⟩⟩
   case clrDrain =>
     intro closing _ _
     unfold stClrDrain
     split
     · exact .of_eq rfl rfl
     · rename_i hr
-      exact ⟨fun id h => by simp [recvBuf_closedMarkers hr, h], fun h => by simpa [recvBuf_closed hr] using h⟩
+      exact ⟨fun id h => by simp [recvBuf_closedMarkers hr, h], fun h => by simpa [recvBuf_closed hr] using h,
+        fun h => Or.inl (by simpa [recvBuf_closed hr] using h)⟩
     · rename_i hr
       split
       · exact .of_eq (by simp [recvBuf_closedMarkers hr]) (by simp [recvBuf_closed hr])
@@ -77,7 +79,7 @@ theorem stepMono_applierStep {cfg : Cfg} {s s' : State} {ch : Choice}
     · simp only [Option.some.injEq] at hr; subst hr; exact .of_eq rfl rfl
     · rename_i t; exact .of_eq (apSelStop_closedMarkers s t hr) (apSelStop_closed s t hr)
     · simp at hr
-  case marker => intros; exact ⟨fun id h => by simp [apMarker, h], fun h => by simpa using h⟩
+  case marker => intros; exact ⟨fun id h => by simp [apMarker, h], fun h => by simpa using h, fun h => Or.inl (by simpa using h)⟩
   case costed =>
     intro i hpc hr
     unfold apCosted at hr
